@@ -77,6 +77,7 @@ inductive Cls
   | reflect | runtime | argsNotMatch | returnsNotMatch | retvalCount | retvalType | whenCount | whenType
   | methodEmpty | methodNotFound | symbolNotFound | trampKind | trampSmall | funcSmall | alreadyPatched
   | illegalParam | illegalParamType | ictxReturn | ifaceNoAs | nameEmpty | funcDefEmpty | targetKind | replKind
+  | inCount | inType
   deriving DecidableEq, Repr, Inhabited
 
 structure Rej where
@@ -547,5 +548,207 @@ def ifaceCall (v : IfaceVar) (name : String) (found : Bool) (m : Sig) : IfaceAct
             match ret with
             | none => (pure (), true)
             | some vals => match whenReturn w fn vals with | .error e => (.error e, true) | .ok _ => (pure (), true)
+
+/-! ## sequences of configuration calls on one mocker (mocker.go, iface.go, when.go:103-214)
+
+After the first `When/Return/Returns` the mocker holds a `*When` (`m.when`); every later call — on the returned
+handle or through a repeated `Func(f)` / `Method(..)` lookup, which yields the same cached mocker and delegates to
+`m.when` — only adds matchers.  `hit` flags abstract `arg.equal`: whether the matcher being built would match the
+one call the probe makes to classify behaviour. -/
+
+/-- the `*When` object -/
+structure WS where
+  hasCur : Bool        -- curMatch != nil
+  curHit : Bool
+  hasDefault : Bool    -- defaultReturns != nil
+  anyHit : Bool        -- some matcher in w.matches matches the probe's call
+  deriving DecidableEq, Repr, Inhabited
+
+/-- when.go:41 `CreateWhen`, with the matcher bookkeeping (`curMatch` is the always-matching default when no
+    condition was given) -/
+def createWS (s : Sig) (args : Option (List V)) (hit : Bool) (defaults : Option (List V)) (isMethod : Bool) : R WS := do
+  let w ← createWhen s args defaults isMethod
+  match args with
+  | some _ => pure ⟨true, hit, w.hasDefault, false⟩
+  | none => pure ⟨w.hasDefault, true, w.hasDefault, false⟩
+
+/-- when.go:103 `(*When).When` -/
+def wWhen (s : Sig) (isM : Bool) (w : WS) (args : Option (List V)) (hit : Bool) : R WS := do
+  newDefaultMatch (args.getD []) isM s
+  pure { w with hasCur := true, curHit := hit }
+
+/-- when.go:139 `(*When).Return` -/
+def wReturn (s : Sig) (w : WS) (vals : Option (List V)) : R WS :=
+  if w.hasCur then do
+    addResult (vals.getD []) s.outs                              -- when.go:141
+    pure { w with anyHit := w.anyHit || w.curHit }               -- when.go:142 append(w.matches, w.curMatch)
+  else if !w.hasDefault then
+    match vals with
+    | none => pure w                                             -- newAlwaysMatch(nil) = nil
+    | some vs => do addResult vs s.outs; pure { w with hasDefault := true }
+  else do addResult (vals.getD []) s.outs; pure w
+
+/-- when.go:157 `(*When).AndReturn` -/
+def wAndReturn (s : Sig) (w : WS) (vals : Option (List V)) : R WS :=
+  if !w.hasCur then wReturn s w vals
+  else do addResult (vals.getD []) s.outs; pure w
+
+/-- when.go:192 `(*When).Returns`: first group through `Return`, the others through `AndReturn`.  A later bad group
+    panics after the earlier ones were added (the returned `WS` is what is left). -/
+def wReturns (s : Sig) : WS → List (List V) → Nat → WS × R Unit
+  | w, [], _ => (w, pure ())
+  | w, g :: rest, i =>
+    match (if i = 0 then wReturn s w (some g) else wAndReturn s w (some g)) with
+    | .error e => (w, .error e)
+    | .ok w1 => wReturns s w1 rest (i + 1)
+
+/-- when.go:123 `(*When).In` → matcher.go:157 `newContainsMatch` → expr.go:71 `InExpr.Resolve`: one `ToExpr` per group
+    (non-variadic targets) -/
+def wIn (s : Sig) (isM : Bool) (w : WS) : List (List V × Bool) → Bool → R WS
+  | [], hit => pure { w with hasCur := true, curHit := hit }
+  | (g, h) :: rest, hit =>
+    match toExpr g (inTypes isM s) with
+    | .ok _ => wIn s isM w rest (hit || h)
+    | .error .count => rStr .inCount
+    | .error (.tv .typeMismatch) => rStr .inType
+    | .error (.tv .reflectPanic) => rReflect
+    | .error (.tv .ictxPanic) => rStr .ictxReturn
+
+/-- when.go:168 `(*When).Matches`: each pair becomes a matcher that is appended at once — a later bad pair panics after
+    the earlier ones were installed (the returned `WS` is what is left) -/
+def wMatches (s : Sig) (isM : Bool) : WS → List (List V × Bool × List V) → WS × R Unit
+  | w, [] => (w, pure ())
+  | w, (a, hit, r) :: rest =>
+    match newDefaultMatch a isM s with
+    | .error e => (w, .error e)
+    | .ok _ =>
+      match addResult r s.outs with
+      | .error e => (w, .error e)
+      | .ok _ => wMatches s isM { w with anyHit := w.anyHit || hit } rest
+
+inductive Step
+  | apply (cb : V)
+  | ret (vals : Option (List V))
+  | when_ (args : Option (List V)) (hit : Bool)
+  | returns (groups : List (List V))
+  | andReturn (vals : Option (List V))
+  | in_ (groups : List (List V × Bool))
+  | matchPairs (pairs : List (List V × Bool × List V))
+  | again          -- look the mocker up again through the builder (same cached mocker)
+  deriving Repr, Inhabited
+
+/-- what the entry of the target currently jumps to -/
+inductive ImpK | none | cb | whenFn
+  deriving DecidableEq, Repr, Inhabited
+
+/-- a function/method mocker together with the global state -/
+structure MS where
+  g : G
+  when : Option WS     -- m.when
+  imp : ImpK           -- what was applied last (mocker.go:99 `m.imp = callback` after `guard.Apply()`)
+
+def behOf (pre : Beh) (ms : MS) : Beh :=
+  match ms.imp with
+  | .none => pre
+  | .cb => .cb
+  | .whenFn => match ms.when with                       -- mocker.go:141 callback reads m.when at call time
+    | some w => if w.anyHit || w.hasDefault then .stub else .nomatch
+    | none => .nomatch
+
+/-- the steps that only touch the `*When` (no state of the image or the registry is involved) -/
+def whenStep (s : Sig) (isM : Bool) (w : WS) : Step → WS × R Unit
+  | .ret vals => match wReturn s w vals with | .ok w1 => (w1, pure ()) | .error e => (w, .error e)
+  | .when_ args hit => match wWhen s isM w args hit with | .ok w1 => (w1, pure ()) | .error e => (w, .error e)
+  | .returns gs => wReturns s w gs 0
+  | .andReturn vals => match wAndReturn s w vals with | .ok w1 => (w1, pure ()) | .error e => (w, .error e)
+  | .in_ gs => match wIn s isM w gs false with | .ok w1 => (w1, pure ()) | .error e => (w, .error e)
+  | (.matchPairs ps) => wMatches s isM w ps
+  | .again => (w, pure ())
+  | .apply _ => (w, pure ())     -- not a `*When` call; handled by `seqStep`
+
+/-- one configuration call on a function (`isM = false`, mocker.go:506-600) or method (`isM = true`, mocker.go:243-340)
+    mocker.  The order inside the first-call paths is the code's: CreateWhen → `m.whens(when)` (which sets `m.when`) →
+    [`m.when.Returns(values...)`] → `m.doApply(m.imp)`. -/
+def seqStep (tg : Target) (isM : Bool) (repl : Nat) (ms : MS) : Step → MS × R Unit
+  | .again => (ms, pure ())
+  | .apply cb =>
+    match applyByFunc ms.g tg cb .none repl with
+    | (g1, .error e) => ({ ms with g := g1 }, .error e)
+    | (g1, .ok _) => (⟨g1, none, .cb⟩, pure ())            -- Apply discards m.when (mocker.go:246/510)
+  | st =>
+    match ms.when with
+    | some w =>
+      let (w1, r) := whenStep tg.sig isM w st
+      ({ ms with when := some w1 }, r)
+    | none =>
+      -- first call: build the When, remember it, [fill it], apply
+      let built : R WS := match st with
+        | .ret vals => createWS tg.sig none true (firstReturnValues vals) isM
+        | .when_ args hit => createWS tg.sig args hit none isM
+        | .returns _ => createWS tg.sig none true none isM
+        | _ => rStr .funcDefEmpty        -- AndReturn / In / Matches exist on the handle only
+      match built with
+      | .error e => (ms, .error e)
+      | .ok w0 =>
+        let filled : WS × R Unit := match st with
+          | .returns gs => wReturns tg.sig w0 gs 0
+          | _ => (w0, pure ())
+        match filled with
+        | (w1, .error e) => ({ ms with when := some w1 }, .error e)     -- m.when is already set, nothing applied
+        | (w1, .ok _) =>
+          match applyByFunc ms.g tg (.fn tg.sig) .none repl with
+          | (g1, .error e) => ({ ms with g := g1, when := some w1 }, .error e)
+          | (g1, .ok _) => (⟨g1, some w1, .whenFn⟩, pure ())
+
+/-- run the steps until the first rejection.  Returns the state before the last executed step, the state after it,
+    its result, and its index. -/
+def runSeq (tg : Target) (isM : Bool) (repl : Nat) : MS → List Step → Nat → MS × MS × R Unit × Nat
+  | ms, [], i => (ms, ms, pure (), i)
+  | ms, [st], i => let (ms1, r) := seqStep tg isM (repl + i) ms st; (ms, ms1, r, i)
+  | ms, st :: rest, i =>
+    match seqStep tg isM (repl + i) ms st with
+    | (ms1, .error e) => (ms, ms1, .error e, i)
+    | (ms1, .ok _) => runSeq tg isM repl ms1 rest (i + 1)
+
+/-- interface-method mocker (iface.go:112-186): `m.when` is assigned only AFTER the fake implementation was installed -/
+structure IS where
+  set : Bool           -- the variable holds the fake implementation
+  when : Option WS
+  imp : ImpK
+  deriving Inhabited
+
+def ifaceSeqStep (m fn : Sig) (is_ : IS) : Step → IS × R Unit
+  | .again => (is_, pure ())
+  | .apply cb =>
+    match applyIface .ptrIface m cb with
+    | .error e => (is_, .error e)
+    | .ok _ => (⟨true, none, .cb⟩, pure ())
+  | st =>
+    match is_.when with
+    | some w =>
+      let (w1, r) := whenStep fn true w st
+      ({ is_ with when := some w1 }, r)
+    | none =>
+      let built : R WS := match st with
+        | .ret vals => createWS fn none true (firstReturnValues vals) true
+        | .when_ args hit => createWS fn args hit none true
+        | .returns gs => do                                                          -- iface.go:179
+          let w0 ← createWS fn none true none true
+          match wReturns fn w0 gs 0 with | (w1, .ok _) => pure w1 | (_, .error e) => .error e
+        | _ => rStr .funcDefEmpty
+      match built with
+      | .error e => (is_, .error e)
+      | .ok w1 =>
+        match applyIface .ptrIface m (.fn fn) with
+        | .error e => (is_, .error e)
+        | .ok _ => (⟨true, some w1, .whenFn⟩, pure ())
+
+def runIfaceSeq (m fn : Sig) : IS → List Step → Nat → IS × IS × R Unit × Nat
+  | s, [], i => (s, s, pure (), i)
+  | s, [st], i => let (s1, r) := ifaceSeqStep m fn s st; (s, s1, r, i)
+  | s, st :: rest, i =>
+    match ifaceSeqStep m fn s st with
+    | (s1, .error e) => (s, s1, .error e, i)
+    | (s1, .ok _) => runIfaceSeq m fn s1 rest (i + 1)
 
 end Reject
